@@ -272,6 +272,45 @@ def r5(ctx):
         if not any(o.kind == "param" and o.ref == 3 for o in ops):
             ok = False
     ctx.ob("R5", "resolve_char negative index is len + c", ok, "%d addition(s), each with the len parameter as an operand" % len(adds), where=rc.loc())
+    # …and what becomes the index is never negative: a signed value is cast to usize only where a dominating comparison established
+    # `0 <= value` (or the value is the len/default parameter itself).  `(len + c) as usize` of a negative sum is a huge index; the bounds
+    # test in Substring::compute then answers "" where Python's slice clamps to 0 (`'abc'[-5:]` is 'abc').
+    from .c11 import _dominating_orders, _src_local
+
+    def ekey(op, depth=0):
+        if op[0] == "k":
+            return ("k", str(op[1].get("v")))
+        if op[1][1]:
+            base = ekey([op[0], [op[1][0], []]], depth + 1)
+            return ("proj", base, tuple(map(str, op[1][1])))
+        l = _src_local(rc, op)
+        if l is None or depth > 6:
+            return ("?", str(op))
+        ds = [d for d in rc.defs.get(l[1], []) if d[0] == "assign" and d[1] in rc.live_blocks]
+        if len(ds) == 1 and not ds[0][4]:
+            rv = ds[0][3]
+            if rv[0] in ("bin", "checked") and str(rv[1]).startswith("Add"):
+                return ("add",) + tuple(sorted([ekey(rv[2], depth + 1), ekey(rv[3], depth + 1)], key=str))
+            if rv[0] == "use" and rv[1][0] != "k" and rv[1][1][1] == [".0|"] or (rv[0] == "use" and rv[1][0] != "k" and len(rv[1][1][1]) == 1 and str(rv[1][1][1][0]).startswith(".0")):
+                return ekey([rv[1][0], [rv[1][1][0], []]], depth + 1)
+        return l
+
+    casts = [(bi, st) for bi in sorted(rc.live_blocks) for st in rc.blocks[bi]["s"] if st[0] == "A" and st[2][0] == "cast" and st[2][3] == "usize" and st[2][2][0] != "k" and
+             rc.locals[st[2][2][1][0]] in ("i32", "i64", "isize", "i16", "i8")]
+    ctx.floor("R5", "signed-to-usize casts in resolve_char", len(casts), 1)
+    badc = []
+    for bi, st in casts:
+        k = ekey(st[2][2])
+        if isinstance(k, tuple) and k[0] == "local" and k[1] <= rc.nargs and k[1] >= 2:
+            continue        # the len / default parameter itself (a character count, see above)
+        facts = _dominating_orders(rc, bi)
+        if any(sm[0] == "k" and str(sm[1].get("v", "")).startswith("0_") and ekey(bg) == k for sm, bg, _ in facts):
+            continue
+        badc.append(rc.loc(st[3]))
+    ctx.ob("R5", "resolve_char casts only non-negative values to an index", not badc,
+           "%d cast(s), each of the len/default parameter or of a value a dominating comparison found >= 0" % len(casts) if not badc else
+           "a signed value is cast to usize without a dominating `>= 0` test (%s): a negative index beyond the start wraps to a huge one and selects nothing, "
+           "where Python slice semantics clamp it to 0" % badc[:3], where=rc.loc())
 
 
 def _range_operands(f, op):
